@@ -369,27 +369,42 @@ func runC02(c *Ctx) {
 			}
 			c.check(okS, "winner-orientation", fnKey(wr)+"#sorted-first", p.FnPos(wr), "the ranking is sorted before the winners are read", "winners are read from an unsorted ranking")
 		}
-		// losers: every group except the winners' one
+		// losers: every group except the winners' one — either a full range over the groups that
+		// skips exactly index 0, or a full range over groups[1:] that takes every element
 		lb := false
 		var why string
 		for _, l := range s.loops(gl) {
 			ri := analyseRange(l)
-			if !loadsField(ri.Coll, "settlement.Rank.groups") || !ri.Full || len(l.Exits) != 1 {
+			if !ri.Full || len(l.Exits) != 1 {
 				continue
 			}
 			body, _ := s.LoopBody(gl, l)
-			lb = len(body) == 2
-			for _, bp := range body {
-				first := hasCond(bp, func(v *Val) bool { return v.K == KAtom && v.At.Op == "eq" && !v.Neg && strings.HasPrefix(v.At.A.String(), "iter:GetLoser.") && v.At.A.C == 1 })
-				grew := false
+			grows := func(bp *PathSum) bool {
 				for k, v := range bp.Store {
 					if strings.HasPrefix(k, "backedge:") && v.Op == "append" && strings.Contains(v.String(), ".Contributors") {
-						grew = true
+						return true
 					}
 				}
-				if first == grew && sel == "first" {
-					lb = false
-					why = "the winners' group is not the one skipped"
+				return false
+			}
+			if loadsField(ri.Coll, "settlement.Rank.groups") {
+				lb = len(body) == 2
+				for _, bp := range body {
+					first := hasCond(bp, func(v *Val) bool { return v.K == KAtom && v.At.Op == "eq" && !v.Neg && strings.HasPrefix(v.At.A.String(), "iter:GetLoser.") && v.At.A.C == 1 })
+					if first == grows(bp) && sel == "first" {
+						lb = false
+						why = "the winners' group is not the one skipped"
+					}
+				}
+			} else if sl, ok := ri.Coll.(*ssa.Slice); ok && loadsField(sl.X, "settlement.Rank.groups") && sl.High == nil {
+				if lo, isC := constInt(sl.Low); isC && lo == 1 && sel == "first" {
+					lb = len(body) > 0
+					for _, bp := range body {
+						if bp.End != "continue" || !grows(bp) {
+							lb = false
+							why = "not every remaining group is taken"
+						}
+					}
 				}
 			}
 		}
@@ -413,6 +428,7 @@ func checkShareShape(c *Ctx, ruleName string) {
 		c.touch(fnKey(wr))
 		s := newSumm(p, 0)
 		s.EngineAliases = false
+		s.HelperInline = func(f *ssa.Function) bool { return privateHelper(wr, f) && len(findLoops(f)) == 0 }
 		var bad []string
 		found := false
 		lvl := "param:" + wr.Params[2].Name()
